@@ -24,6 +24,22 @@ theorem foldE_ok {ι β ε : Type} (l : List ι) (f : β → ι → Except ε β
     rw [h b x (by simp)]
     exact ih (fun b y hy => h b y (by simp [hy])) (g b x)
 
+/-- a loop with an iteration that panics whatever the state panics (at that iteration or before) -/
+theorem foldE_error_of_mem {ι β ε : Type} (l : List ι) (f : β → ι → Except ε β) (x : ι) (hx : x ∈ l)
+    (h : ∀ b, ∃ e, f b x = .error e) (b : β) : ∃ e, foldE l f b = .error e := by
+  induction l generalizing b with
+  | nil => cases hx
+  | cons y ys ih =>
+    unfold foldE
+    cases hfy : f b y with
+    | error e => exact ⟨e, rfl⟩
+    | ok b' =>
+      simp only
+      rcases List.mem_cons.mp hx with rfl | hmem
+      · obtain ⟨e, he⟩ := h b
+        rw [he] at hfy; cases hfy
+      · exact ih hmem b'
+
 theorem foldl_ext_mem' {β γ : Type} (f g : β → γ → β) (l : List γ)
     (H : ∀ a, ∀ b ∈ l, f a b = g a b) (a : β) : l.foldl f a = l.foldl g a := by
   induction l generalizing a with
@@ -234,6 +250,23 @@ theorem rowsGeneric_ok (zero : α) (add : α → α → α) (pssm : Mat α K) (s
   have hcol := List.mem_range.mp hcol
   rw [cellGeneric_ok zero add pssm seq (a + k) col (fun j hj => h k j col hk hj hcol)]
   simp only [Nat.zero_add]
+
+/-- the generic loops panic as soon as one row of the range lacks a look-ahead row -/
+theorem rowsGeneric_error (hC : 0 < C) (zero : α) (add : α → α → α) (pssm : Mat α K) (seq : Mat Nat C)
+    (a n : Nat) (d : Mat α C) (k j : Nat) (hk : k < n) (hj : j < pssm.rows)
+    (hrow : seq.rows ≤ a + k + j) : ∃ e, rowsGeneric zero add pssm seq a n d = .error e := by
+  unfold rowsGeneric
+  apply foldE_error_of_mem _ _ k (List.mem_range.mpr hk)
+  intro d
+  apply foldE_error_of_mem _ _ 0 (List.mem_range.mpr hC)
+  intro d'
+  have hcell : ∃ e, cellGeneric zero add pssm seq (a + k) 0 = .error e := by
+    unfold cellGeneric
+    apply foldE_error_of_mem _ _ j (List.mem_range.mpr hj)
+    intro sc
+    exact ⟨"row-oob", by rw [if_neg (by omega)]⟩
+  obtain ⟨e, he⟩ := hcell
+  exact ⟨e, by rw [he]⟩
 
 theorem genericRows_spec (zero : α) (add : α → α → α) (pssm : Mat α K) (seq : Mat Nat C) (a n : Nat)
     (d : Mat α C) (r c : Nat) :
